@@ -770,11 +770,11 @@ Qed.
 Lemma store_files bs h fs sp :
   R bs h fs sp ->
   exists nx, store h fs =
-    (set_addrs h 2048 2194,
-     mkFS (write_at (write_at (f_bytes fs) 2048 (encode_header (set_addrs h 2048 2194))) 2194
-                    (encode_dblock (h_blk (set_addrs h 2048 2194)))) nx, 2048).
+    Ok (set_addrs h 2048 2194,
+        mkFS (write_at (write_at (f_bytes fs) 2048 (encode_header (set_addrs h 2048 2194))) 2194
+                       (encode_dblock (h_blk (set_addrs h 2048 2194)))) nx, 2048).
 Proof.
-  intros HR. destruct HR. unfold store. destruct R_addr0 as [[-> Hn]| ->].
+  intros HR. destruct HR. unfold store, store_direct. rewrite R_ind0. destruct R_addr0 as [[-> Hn]| ->].
   - rewrite Hn. change (2048 + HDR_SIZE) with 2194. eexists. reflexivity.
   - eexists. reflexivity.
 Qed.
@@ -975,7 +975,7 @@ Lemma persist bs hist :
     spec_run bs spec0 hist = Some (sp, eouts)
     /\ run cap_new bs (new_heap bs, fs0) hist = (h, fs, eouts)
     /\ exists h1 fs1 ha h2,
-         store h fs = (h1, fs1, ha) /\ load bs (f_bytes fs1) ha = Ok h2
+         store h fs = Ok (h1, fs1, ha) /\ load bs (f_bytes fs1) ha = Ok h2
          /\ observables bs h2 sp
          /\ h_nobj h2 = h_nobj h /\ h_free h2 = h_free h /\ h_manoff h2 = h_manoff h
          /\ db_free (h_blk h2) = db_free (h_blk h)
@@ -1053,16 +1053,16 @@ Lemma old_witness_excluded_new_rule : one_block 64 [Ins (obj 1 60) 0] = false.
 Proof. vm_compute. reflexivity. Qed.
 
 (* class "total volume exceeds one direct block": the insert that does not fit does not fail, the heap moves to
-   an indirect root, and what is written out can be read back neither by LoadFromFile nor by the two readers *)
+   an indirect root in memory (get still answers), and from then on every write-out is refused: nothing of the
+   heap - including the object just accepted - can reach the file *)
 Lemma multi_block_refuted :
   let a := obj 1 40 in let b := obj 101 40 in
   let hist := [Ins a 0; Ins b 0] in
   let idb := mkid 64 40 in
   bs_ok 64 = true /\ targets_live 64 hist = true /\ one_block 64 hist = false
-  /\ outs_of cap_new 64 (hist ++ [Get idb; SL]) = [OId (mkid 0 40); OId idb; OData b; OErr]
-  /\ (let '(h1, fs1, ha) := store (heap_of cap_new 64 hist) (file_of cap_new 64 hist) in
-      ro_read (f_bytes fs1) ha idb = Err /\ core_read (f_bytes fs1) ha idb = Err
-      /\ ro_read (f_bytes fs1) ha (mkid 0 40) = Err).
+  /\ outs_of cap_new 64 (hist ++ [Get idb; SL; Get idb]) = [OId (mkid 0 40); OId idb; OData b; OErr; OData b]
+  /\ store (heap_of cap_new 64 hist) (file_of cap_new 64 hist) = Err
+  /\ f_bytes (file_of cap_new 64 (hist ++ [SL])) = [].
 Proof. vm_compute. repeat split; reflexivity. Qed.
 
 (* ... and a failing insert on the indirect path has already changed the heap (a third block is registered,
@@ -1122,9 +1122,12 @@ Proof. vm_compute. reflexivity. Qed.
 
 (* both read-only readers return the stored bytes from the file written after demo_hist *)
 Example demo_readers :
-  let '(h1, fs1, ha) := store (heap_of cap_new 64 demo_hist) (file_of cap_new 64 demo_hist) in
+  match store (heap_of cap_new 64 demo_hist) (file_of cap_new 64 demo_hist) with
+  | Err => False
+  | Ok (h1, fs1, ha) =>
   ro_read (f_bytes fs1) ha (mkid 25 20) = Ok (obj 90 20) /\ core_read (f_bytes fs1) ha (mkid 25 20) = Ok (obj 90 20)
-  /\ ro_read (f_bytes fs1) ha (mkid 0 20) = Ok (obj 7 20) /\ core_read (f_bytes fs1) ha (mkid 0 20) = Ok (obj 7 20).
+  /\ ro_read (f_bytes fs1) ha (mkid 0 20) = Ok (obj 7 20) /\ core_read (f_bytes fs1) ha (mkid 0 20) = Ok (obj 7 20)
+  end.
 Proof. vm_compute. repeat split; reflexivity. Qed.
 
 (* ------------------------------------------------------------------ the two read-only readers *)
@@ -1331,7 +1334,7 @@ Lemma readers bs hist :
     spec_run bs spec0 hist = Some (sp, eouts)
     /\ run cap_new bs (new_heap bs, fs0) hist = (h, fs, eouts)
     /\ exists h1 fs1 ha,
-         store h fs = (h1, fs1, ha)
+         store h fs = Ok (h1, fs1, ha)
          /\ forall id d, lookup id (sp_live sp) = Some d ->
               ro_read (f_bytes fs1) ha id = Ok d /\ core_read (f_bytes fs1) ha id = Ok d.
 Proof.
